@@ -301,6 +301,40 @@ pub fn vf_vec_clone(a: &Vec<u8>) -> (r: Vec<u8>)
     ensures r@ == a@
 { unimplemented!() }
 
+// ---- where the entropy of a generation call comes from (C07 / C08) -----------------------------------
+pub enum VfOrigin { Seed(u64), OsRandom, Bytes(Seq<u8>) }
+#[verifier::external_body]
+pub struct VfRng { inner: usize }
+#[verifier::external_body]
+pub struct VfUnstructured { inner: usize }
+impl VfRng { pub uninterp spec fn origin(&self) -> VfOrigin; }
+impl VfUnstructured { pub uninterp spec fn data(&self) -> Seq<u8>; }
+impl GenerationSource { pub uninterp spec fn origin(&self) -> VfOrigin; }
+/// ChaCha8Rng::seed_from_u64(seed): the stream is a function of the seed alone
+#[verifier::external_body]
+pub fn vf_rng_seed_from_u64(seed: u64) -> (r: VfRng)
+    ensures r.origin() == VfOrigin::Seed(seed)
+{ unimplemented!() }
+/// ChaCha8Rng::from_os_rng()
+#[verifier::external_body]
+pub fn vf_rng_from_os() -> (r: VfRng)
+    ensures r.origin() == VfOrigin::OsRandom
+{ unimplemented!() }
+/// GenerationSource::Rand(&mut rng)
+#[verifier::external_body]
+pub fn vf_source_rand(rng: &mut VfRng) -> (r: GenerationSource)
+    ensures r.origin() == old(rng).origin()
+{ unimplemented!() }
+/// Unstructured::new(data) / GenerationSource::Arbitrary(&mut u)
+#[verifier::external_body]
+pub fn vf_unstructured_new(data: &[u8]) -> (r: VfUnstructured)
+    ensures r.data() == data@
+{ unimplemented!() }
+#[verifier::external_body]
+pub fn vf_source_arbitrary(u: &mut VfUnstructured) -> (r: GenerationSource)
+    ensures r.origin() == VfOrigin::Bytes(old(u).data())
+{ unimplemented!() }
+
 // ---- text formatting (R6): opaque text values with the decimal round-trip assumption -----------------
 #[verifier::external_body]
 pub struct VfText { inner: usize }
